@@ -6,6 +6,7 @@ signal.signal(signal.SIGTERM, lambda *a: sys.exit(143))
 src, name, pid = sys.argv[1], sys.argv[2], sys.argv[3]
 skip_check = len(sys.argv) > 4 and sys.argv[4] == "--nocheck"
 wt = "/tmp/seedcheck_" + name
+CHK = os.environ.get("KEEPSEED_VERIF", "/verif")   # where the check runs (a clone keeps /verif free for other work)
 def sh(cmd, cwd=None, env=None, timeout=1800):
     p = subprocess.run(cmd, shell=True, cwd=cwd, capture_output=True, text=True, env=env, timeout=timeout)
     return p.returncode, (p.stdout + p.stderr)
@@ -42,18 +43,18 @@ meta["confirmed"] = ran
 if not skip_check:
     # the patched scratch worktree stands in for /repo (PYCOIN_REPO), so /repo itself is never touched
     try:
-        rc, o = sh("./check %s --tier quick" % pid, cwd="/verif", timeout=3000, env=dict(os.environ, PYCOIN_REPO=wt))
+        rc, o = sh("./check %s --tier quick" % pid, cwd=CHK, timeout=3000, env=dict(os.environ, PYCOIN_REPO=wt))
     finally:
         sh("git -C /repo worktree remove --force %s" % wt)
-        sh("git checkout -- lean/Pycoin/Gen evidence/%s.json" % pid, cwd="/verif")
+        sh("git checkout -- lean/Pycoin/Gen evidence/%s.json" % pid, cwd=CHK)
     lines = [l for l in o.split("\n") if l.startswith("VIOLATION")]
     replays = []
     for l in lines[:3]:
         m = re.search(r"replay=(\S+)", l)
-        if m and os.path.exists("/verif/" + m.group(1)):
-            r = json.load(open("/verif/" + m.group(1)))
+        if m and os.path.exists(CHK + "/" + m.group(1)):
+            r = json.load(open(CHK + "/" + m.group(1)))
             replays.append({"what": r.get("what"), "input": str(r.get("input"))[:300], "kind": r.get("kind")})
-    sh("rm -f /verif/replays/*.json")
+    sh("rm -f %s/replays/*.json" % CHK)
     meta["check_quick"] = {"exit": rc, "violation_lines": lines[:5], "replays": replays, "summary": o.strip().split("\n")[-1][:300]}
     print("check exit", rc, len(lines), "violation lines")
 json.dump(meta, open(os.path.join(dst, "meta.json"), "w"), indent=1)
